@@ -2,6 +2,7 @@ import JediModel.Gen.C11
 import JediModel.Lemmas.Call
 import JediModel.Lemmas.CallArgs
 import JediModel.Lemmas.CallForward
+import JediModel.Lemmas.DocLit
 set_option linter.unusedSimpArgs false
 /-! # C11 — signatures and docstrings mirror the definition; index locates the argument
 
@@ -484,5 +485,72 @@ theorem docstring_assembly (sig doc : Str) :
     cases sig <;> cases doc <;> simp_all [docAssemble]
   · rintro rfl; cases sig <;> simp [docAssemble]
   · rintro rfl; cases doc <;> simp [docAssemble]
+
+/-! ## which literal is a docstring (`_clean_docstring_literal` / `safe_literal_eval`) -/
+section DocLit
+open JediModel.DocLit
+
+/-- the decision expressions of `safe_literal_eval` (slice length, the letter compared with
+`first_two[0]`, the two-letter prefixes) and the statements of `_clean_docstring_literal` and of
+its two callers, as the model `DocLit.cleanDocstringLiteral` transcribes them -/
+theorem gen_docstring_literal_rule :
+    JediModel.Gen.C11.docLitSlice = 2 ∧ JediModel.Gen.C11.docLitFFirst = 'f' ∧
+    JediModel.Gen.C11.docLitFPairs = [['f', 'r'], ['r', 'f']] ∧
+    JediModel.Gen.C11.safeLiteralEval =
+      ["(value)", "first_two = value[:2].lower()",
+       "if first_two[0] == 'f' or first_two in ('fr', 'rf'): return ''", "return literal_eval(value)"] ∧
+    JediModel.Gen.C11.cleanDocstringLiteral =
+      ["(value)", "doc = safe_literal_eval(value)", "if not isinstance(doc, str): return ''",
+       "return cleandoc(doc)"] ∧
+    JediModel.Gen.C11.docLiteralCallers =
+      ["clean_scope_docstring: return _clean_docstring_literal(node.value)",
+       "find_statement_documentation: return _clean_docstring_literal(maybe_string.value)"] := by decide
+
+/-- every string prefix CPython accepts: none, r, u, b, br, rb, f, fr, rf in every case -/
+theorem legal_prefixes_count : legalPrefixes.length = 25 ∧ legalPrefixes.Nodup := by decide
+
+/-- For EVERY string token `prefix ++ quote ++ body ++ quote` (any legal prefix, any of the four
+quote styles, any body whatsoever) `_clean_docstring_literal` takes the literal as docstring
+exactly when Python does: no `b` and no `f` in the prefix.  The slice length and the letters are
+the ones the translator read from the source. -/
+theorem docstring_literal_decision (p q body : List Char) (hp : p ∈ legalPrefixes) (hq : q ∈ quotes) :
+    cleanDocstringLiteral JediModel.Gen.C11.docLitSlice JediModel.Gen.C11.docLitFFirst
+        JediModel.Gen.C11.docLitFPairs (token p q body) (pyEvald p) =
+      if pyIsDocstring p then .cleandoc else .emptyDoc := by
+  obtain ⟨h1, h2, h3, -⟩ := gen_docstring_literal_rule
+  rw [h1, h2, h3]
+  unfold cleanDocstringLiteral
+  rw [skipsEval_token p q body hp hq]
+  unfold pyEvald pyIsDocstring
+  cases hf : pyIsFString p <;> cases hb : pyIsBytes p <;> simp
+
+example : ['R', 'b'] ∈ legalPrefixes ∧ ['\'', '\'', '\''] ∈ quotes ∧ pyIsDocstring ['R', 'b'] = false ∧
+    pyIsDocstring ['U'] = true := by decide
+
+/-- the decision never looks at the body: two tokens with the same prefix and quote get the same
+answer whatever `literal_eval` yields (in particular a body starting with `b`, `f` or `r` after a
+one-character quote is not taken for a prefix) -/
+theorem docstring_literal_body_irrelevant (p q b₁ b₂ : List Char) (ev : Evald)
+    (hp : p ∈ legalPrefixes) (hq : q ∈ quotes) :
+    cleanDocstringLiteral JediModel.Gen.C11.docLitSlice JediModel.Gen.C11.docLitFFirst
+        JediModel.Gen.C11.docLitFPairs (token p q b₁) ev =
+    cleanDocstringLiteral JediModel.Gen.C11.docLitSlice JediModel.Gen.C11.docLitFFirst
+        JediModel.Gen.C11.docLitFPairs (token p q b₂) ev := by
+  obtain ⟨h1, h2, h3, -⟩ := gen_docstring_literal_rule
+  rw [h1, h2, h3]
+  unfold cleanDocstringLiteral
+  rw [skipsEval_token p q b₁ hp hq, skipsEval_token p q b₂ hp hq]
+
+example : token [] ['\''] ['b', 'a', 'r'] = ['\'', 'b', 'a', 'r', '\''] := by decide
+
+/-- why the two theorems above are not vacuous: a rule that takes the letters of `value[:2]` for
+the prefix (`'b' in value[:2].lower()`) is not a function of the prefix - kernel-checked on
+`'bc'` against `'ac'`, both docstrings in Python -/
+theorem two_char_sniffing_depends_on_body :
+    (lower ((token [] ['\''] ['b', 'c']).take 2)).contains 'b' = true ∧
+    (lower ((token [] ['\''] ['a', 'c']).take 2)).contains 'b' = false ∧
+    pyIsDocstring [] = true := by decide
+
+end DocLit
 
 end JediModel.Props.C11
